@@ -678,6 +678,23 @@ func TestC03(t *testing.T) {
 		return
 	}
 	maxL := pick(4, 6)
+	// magnitudes: sequences whose sizes sit on powers of two and multiples of 65536, one spanning feature
+	eg := enumPart(t, c03Prop, st, "large-residues")
+	for _, n := range magnitudeLensShort(thorough()) {
+		span := []Feat{{Key: "gene", Loc: lrg(1, n-1), Quals: [][]string{{"label", "f0"}}}}
+		for _, c := range []c03Case{
+			{L: n, Op: "delete", I: n / 3, N: n / 3, Feats: span}, {L: n, Op: "erase", I: 0, N: n - 1, Feats: span}, {L: n, Op: "delete", I: n - 65536, N: 65536, Feats: span},
+			{L: n, Op: "slice", I: 1, N: n - 1, Feats: span, GenBank: true}, {L: n, Op: "slice", I: n - 2, N: 2, Feats: span}, {L: n, Op: "slice", I: -65536, N: n, Feats: span},
+		} {
+			if c.I+c.N < 0 || (c.Op != "slice" && (c.I < 0 || c.I+c.N > n)) {
+				continue
+			}
+			if !eg.try(c) {
+				return
+			}
+		}
+	}
+	eg.done(true)
 	e := enumPart(t, c03Prop, st, "exhaustive-small")
 	for L := 1; L <= maxL; L++ {
 		leaves := smallLocs(L, true, true)
